@@ -9,6 +9,7 @@
    (tools/c15.py) and must say that every trait method is a single critical section.
    Partial by nature: fairness and wake-ups of async_lock::Mutex and of the executor are run-time
    behaviour; they are exercised by the deterministic-scheduler runs of tools/c15.py. *)
+From HC Require Import SoundCoreLib SoundCore ReplicaDisk1 ReplicaDisk5 ReplicaMiscC.
 From HC Require Import Base Crypto Storage Core Refine ClearRefine Unified1 Unified3 SharedInst.
 From Coq Require Import String.
 From Coq Require Import List Bool Arith.
@@ -295,6 +296,105 @@ Theorem C15_real_core_realtime :
             (model_run cr c s1 cs (results (log cfg)) bs cl \/ frame_stop cs (results (log cfg)) bs cl)).
 Proof. exact shared_unified_realtime. Qed.
 
+Theorem C15_shared_replica_runs_are_serial :
+  forall (cr : crypto) (bs : list bytes),
+         OplogFacts.crc_ok cr ->
+         (forall x : bytes, Datatypes.length (cr_hash cr x) = 32%nat) ->
+         (forall x : bytes, all_zero (cr_hash cr x) = false) ->
+         (forall x : bytes, bytes_ok (cr_hash cr x) = true) ->
+         writer_fits bs ->
+         forall (L : Type) (l0 : rcall -> L) (body : rcall -> list (rstate * L -> rstate * L))
+           (res : rcall -> L -> rdobs),
+         (forall (c : rcall) (s : rstate), atomic l0 body res c s = rstep cr c s) ->
+         forall (progs : list (list rcall)) (cfg : config rstate L rdobs rcall) (c : core) 
+           (d : disk) (j : list sop) (ev : list event) (H : N -> bool),
+         RDInv cr bs c d H ->
+         Forall (Forall rcall_ok) progs ->
+         steps l0 body res (init (c, {| w_disk := d; w_journal := j; w_events := ev |}) progs) cfg ->
+         let cs := calls (log cfg) in
+         let rs := results (log cfg) in
+         exists s1 : rstate,
+           (holder cfg = None -> s1 = shared cfg) /\
+           (rmodel_run cr bs c s1 cs rs H \/
+            rframe_stop bs cs rs H (t_length (c_tree c)) \/
+            Sound.some_collision cr \/ forged_signature cr bs (kp_public (c_keypair c))).
+Proof. exact rshared_replica. Qed.
+
+Theorem C15_shared_replica_no_partial_read :
+  forall (cr : crypto) (bs : list bytes),
+         OplogFacts.crc_ok cr ->
+         (forall x : bytes, Datatypes.length (cr_hash cr x) = 32%nat) ->
+         (forall x : bytes, all_zero (cr_hash cr x) = false) ->
+         (forall x : bytes, bytes_ok (cr_hash cr x) = true) ->
+         writer_fits bs ->
+         forall (L : Type) (l0 : rcall -> L) (body : rcall -> list (rstate * L -> rstate * L))
+           (res : rcall -> L -> rdobs),
+         (forall (c : rcall) (s : rstate), atomic l0 body res c s = rstep cr c s) ->
+         forall (progs : list (list rcall)) (cfg : config rstate L rdobs rcall) (c : core) 
+           (d : disk) (j : list sop) (ev : list event) (H : N -> bool),
+         RDInv cr bs c d H ->
+         Forall (Forall rcall_ok) progs ->
+         steps l0 body res (init (c, {| w_disk := d; w_journal := j; w_events := ev |}) progs) cfg ->
+         forall (i t : nat) (idx : N) (o : rdobs),
+         nth_error (log cfg) i = Some (t, QGet idx, o) ->
+         (forall k : nat, (k < i)%nat -> nth_error (results (log cfg)) k <> Some rframe_panic) ->
+         o = ROGet (Ok None) \/
+         o = ROGet (Ok (Some (TreeRef.blk bs idx))) \/
+         Sound.some_collision cr \/ forged_signature cr bs (kp_public (c_keypair c)).
+Proof. exact rshared_no_partial_read. Qed.
+
+Theorem C15_shared_replica_block_readable_after_apply :
+  forall (cr : crypto) (bs : list bytes),
+         OplogFacts.crc_ok cr ->
+         (forall x : bytes, Datatypes.length (cr_hash cr x) = 32%nat) ->
+         (forall x : bytes, all_zero (cr_hash cr x) = false) ->
+         (forall x : bytes, bytes_ok (cr_hash cr x) = true) ->
+         writer_fits bs ->
+         forall (L : Type) (l0 : rcall -> L) (body : rcall -> list (rstate * L -> rstate * L))
+           (res0 : rcall -> L -> rdobs),
+         (forall (c : rcall) (s : rstate), atomic l0 body res0 c s = rstep cr c s) ->
+         forall (progs : list (list rcall)) (cfg : config rstate L rdobs rcall) (c : core) 
+           (d : disk) (j : list sop) (ev : list event) (H : N -> bool),
+         RDInv cr bs c d H ->
+         Forall (Forall rcall_ok) progs ->
+         steps l0 body res0 (init (c, {| w_disk := d; w_journal := j; w_events := ev |}) progs) cfg ->
+         forall (i t : nat) (f : option bool) (pf : proof) (b : data_block),
+         holder cfg = None ->
+         ~ In rframe_panic (results (log cfg)) ->
+         nth_error (log cfg) i = Some (t, QApply f pf, ROApply (Ok true)) ->
+         p_block pf = Some b ->
+         let cF := fst (shared cfg) in
+         let dF := w_disk (snd (shared cfg)) in
+         core_has cF (db_index b) = true /\
+         (forall (j' : list sop) (ev' : list event),
+          core_get (db_index b) cF {| w_disk := dF; w_journal := j'; w_events := ev' |} =
+          (cF, {| w_disk := dF; w_journal := j'; w_events := ev' |}, Ok (Some (TreeRef.blk bs (db_index b))))) \/
+         Sound.some_collision cr \/ forged_signature cr bs (kp_public (c_keypair c)).
+Proof. exact rshared_block_readable. Qed.
+
+Theorem C15_shared_replica_split_instance :
+  forall (cr : crypto) (bs : list bytes),
+         OplogFacts.crc_ok cr ->
+         (forall x : bytes, Datatypes.length (cr_hash cr x) = 32%nat) ->
+         (forall x : bytes, all_zero (cr_hash cr x) = false) ->
+         (forall x : bytes, bytes_ok (cr_hash cr x) = true) ->
+         writer_fits bs ->
+         forall (progs : list (list rcall)) (c : core) (d : disk) (j : list sop) (ev : list event)
+           (H : N -> bool),
+         RDInv cr bs c d H ->
+         Forall (Forall rcall_ok) progs ->
+         forall cfg : config rstate rlocal rdobs rcall,
+         steps rsplit_l0 (rsplit_body cr) rsplit_res
+           (init (c, {| w_disk := d; w_journal := j; w_events := ev |}) progs) cfg ->
+         let cs := calls (log cfg) in
+         let rs := results (log cfg) in
+         exists s1 : rstate,
+           (holder cfg = None -> s1 = shared cfg) /\
+           (rmodel_run cr bs c s1 cs rs H \/
+            rframe_stop bs cs rs H (t_length (c_tree c)) \/
+            Sound.some_collision cr \/ forged_signature cr bs (kp_public (c_keypair c))).
+Proof. exact rshared_core_split. Qed.
+
 Print Assumptions C15_every_method_is_one_critical_section.
 Print Assumptions C15_mutex_serializable.
 Print Assumptions C15_results_and_program_order.
@@ -312,3 +412,7 @@ Print Assumptions C15_real_core_realtime.
 Print Assumptions SharedInst.toy_shared_split_run.
 Print Assumptions SharedInst.toy_shared_split_partial_unobservable.
 Print Assumptions SharedInst.toy_shared_end_to_end.
+Print Assumptions C15_shared_replica_runs_are_serial.
+Print Assumptions C15_shared_replica_no_partial_read.
+Print Assumptions C15_shared_replica_block_readable_after_apply.
+Print Assumptions C15_shared_replica_split_instance.
